@@ -11,8 +11,10 @@ REPO = os.environ.get("VERIF_REPO", "/repo")
 sys.path.insert(0, REPO)
 
 
-def build(n, deps, prio):
+def build(n, deps, prio, debug=None):
     from tawazi import dag, xn
+
+    debug = debug or [False] * n
 
     xs = {}
     for k in range(1, n + 1):
@@ -21,7 +23,7 @@ def build(n, deps, prio):
                 return k
             f.__qualname__ = f.__name__ = f"f{k}"
             return f
-        xs[k] = xn(mk(), priority=prio[k - 1])
+        xs[k] = xn(mk(), priority=prio[k - 1], debug=debug[k - 1])
     lines = [f"    v{k} = X[{k}]({', '.join(f'v{d}' for d in deps[k - 1])})" for k in range(1, n + 1)]
     src = "def describe():\n" + "\n".join(lines) + "\n    return (" + ", ".join(f"v{k}" for k in range(1, n + 1)) + ",)\n"
     env = {"X": xs}
@@ -42,7 +44,11 @@ def observe(case, idx):
     from tawazi import _verif
 
     n, deps = case["n"], case["deps"]
-    d = build(n, deps, case["prio"])
+    from tawazi import cfg as twz_cfg
+
+    d = build(n, deps, case["prio"], case.get("debug"))
+    # debug nodes take part (in calls and, pulled below the selected leaves, in executors)
+    twz_cfg.RUN_DEBUG_NODES = bool(case.get("debug") and any(case["debug"]))
     row = dict(case)
     row["hs"] = os.environ.get("PYTHONHASHSEED", "")
     row["cp_build"] = [d.graph_ids.compound_priority[f"f{k}"] for k in range(1, n + 1)]
@@ -94,6 +100,8 @@ def observe(case, idx):
         _verif.sink = None
     row["order2"] = rec.order
     row.pop("sels", None)
+    row.pop("debug", None)
+    twz_cfg.RUN_DEBUG_NODES = False
     return row
 
 
